@@ -90,6 +90,8 @@ class LiteralToken(RegexpBaseToken):
             if self.value[5] or (self.value[7] and int(self.value[7]) < 0):
                 # a fraction or a negative exponent: the double nearest to the decimal text
                 real_value = float(self.value[0])
+                if real_value == float('inf'):
+                    raise E2PyclParserException(f'The number {self.value[0]} is too large')
             else:
                 real_value = int(self.value[2])
                 if self.value[7]:
